@@ -333,7 +333,7 @@ Definition api_get (k : bytes) (now : Z) (d : db) : res (option bytes) :=
   | (Some m, d1) =>
       match as_str m d1 with
       | None => Panic d1
-      | Some s => Ok (if snil s then None else Some (sv s)) d1
+      | Some s => Ok (Some (sv s)) d1   (* the key exists: an empty value is the empty string, not nil *)
       end
   end.
 
